@@ -777,8 +777,8 @@ func (s *Server) netServe() error {
 							s.mu.Lock()
 							defer s.mu.Unlock()
 							s.flushAOF(false)
+							s.aofdirty.Store(false)
 						}()
-						s.aofdirty.Store(false)
 					}
 					conn.Write(client.out)
 					client.out = nil
